@@ -39,8 +39,11 @@ def run_variant(prop, repo):
     if code == 2:
         return "undecided", "; ".join(msgs)[:300]
     viol, kn = core.classify(ctx)
+    viol, soft = core.split_restructured(ctx, viol)
     if code == 3 and not viol:
         return "undecided", "; ".join(msgs)[:300]
+    if soft and not viol:
+        return "undecided", "; ".join(f"[{r.rule}] {r.key}: {why}" for r, why in soft)[:300]
     if viol:
         return "violation", "; ".join(f"[{r.rule}] {r.key}" for r in viol)[:400]
     return "clean", ""
@@ -251,8 +254,9 @@ def run(prop, repo, seed):
                 except Exception:
                     title = ""
                 table.append(dict(variant=f"refactoring {bid}: {str(title)[:100]}", kind="preserving", outcome=out, detail=detail))
-                if out != base_out:
-                    broken.append(f"behaviour-preserving refactoring {bid} changed the verdict to {out}: {detail}")
+                # a refactoring may make the check refuse (exit 2, 'cannot decide'); what it must never do is raise an alarm
+                if out == "violation" and base_out != "violation":
+                    broken.append(f"behaviour-preserving refactoring {bid} raised an alarm: {detail}")
             finally:
                 shutil.rmtree(tmp, ignore_errors=True)
     from . import sym
